@@ -12,6 +12,8 @@
                                (never cuts past the end or inside a character)
      C18_last_index            t[len(t)-1] is legal for a non-empty pipeline, and
      C18_last_index_empty_refuted   not for an empty one (the call is now guarded)
+     C18_shorthand_index       arg[index+1] and the slices at index+1 / index+2 in lookupPosixShorthandArg are legal
+                               whenever the loop gets past its `len(arg) == index+1` case (multi-byte letters included)
      C18_sites_audited         the slice / index expressions and the branch conditions in front
                                of them, regenerated from the source on every run, are the ones
                                reviewed for these theorems (Proofs/TotalSites.v)           *)
@@ -49,6 +51,11 @@ Print Assumptions C18_last_index.
 Theorem C18_last_index_empty_refuted : ~ (0 <= last_index 0).
 Proof. exact last_index_empty_refuted. Qed.
 Print Assumptions C18_last_index_empty_refuted.
+
+Theorem C18_shorthand_index : forall len index,
+  1 <= index < len -> shorthand_reads_next len index = true -> index + 1 < len /\ index + 2 <= len.
+Proof. exact shorthand_index_in_bounds. Qed.
+Print Assumptions C18_shorthand_index.
 
 Theorem C18_sites_audited : slice_sites = audited_slice_sites /\ guard_sites = audited_guard_sites.
 Proof. split; vm_compute; reflexivity. Qed.
